@@ -51,9 +51,11 @@ Section Shape.
       eq_ignore_ascii_case a 97 = true /\ eq_ignore_ascii_case l 108 = true /\
       w <> [] /\ Forall (fun c => c = 32 \/ c = 9 \/ c = 10)%N w.
 
-  (* the literal denotes the number: decimal literals by the dec2flt grammar (exact value), hex as 0x<digits> *)
+  (* the literal denotes the number: decimal literals by the dec2flt grammar (exact value, which rounds to a
+     FINITE f64 since b5c1992: f64_finite, see f64_finite_spec), hex as 0x<digits> *)
   Definition lit_denotes (nb : number) (lit : text) : Prop :=
-    (n_radix nb = 10 /\ parse_f64 lit = Some (n_neg nb, n_mant nb, n_exp10 nb) /\ n_precision nb = precision_of lit)
+    (n_radix nb = 10 /\ parse_f64 lit = Some (n_neg nb, n_mant nb, n_exp10 nb) /\
+     f64_finite (n_mant nb) (n_exp10 nb) = true /\ n_precision nb = precision_of lit)
     \/ (n_radix nb = 16 /\ exists ds, lit = 48%N :: 120%N :: ds /\ ds <> [] /\
         forallb is_ascii_hexdigit ds = true /\ n_mant nb = hex_digits_val ds /\ n_neg nb = false /\
         n_exp10 nb = 0%Z /\ n_precision nb = 0).
@@ -249,7 +251,7 @@ Section RawShape.
   Lemma c115_not_ws : u_whitespace u 115 = false.
   Proof. apply ascii_not_ws; [exact laws|reflexivity|reflexivity]. Qed.
 
-  Lemma shape_plural_digit src n k : lex_plural_digit src = Some (n, k) -> K (firstn n src) k.
+  Lemma shape_plural_digit src n k : lex_plural_digit u src = Some (n, k) -> K (firstn n src) k.
   Proof.
     unfold lex_plural_digit. destruct src as [|c0 r1]; [discriminate|].
     destruct (is_ascii_alphanumeric c0) eqn:A0; cbn [negb]; [|discriminate].
@@ -263,7 +265,7 @@ Section RawShape.
       { cbn. left. repeat constructor; auto using c39_not_ws, c115_not_ws. }
       destruct t' as [|d t''].
       + intros H. assert (n = 2 + 1 /\ k = KWord) as [-> ->] by (split; congruence). exact G.
-      + destruct (is_ascii_alphanumeric d); cbn [negb]; [discriminate|].
+      + destruct (u_alphanumeric u d); cbn [negb]; [discriminate|].
         intros H. assert (n = 2 + 1 /\ k = KWord) as [-> ->] by (split; congruence). exact G.
     - destruct (ceq c 115) eqn:C115; [|discriminate].
       unfold ceq in C115. apply N.eqb_eq in C115. subst c.
@@ -271,7 +273,7 @@ Section RawShape.
       { cbn. left. repeat constructor; auto using c115_not_ws. }
       destruct t as [|d t''].
       + intros H. assert (n = 1 + 1 /\ k = KWord) as [-> ->] by (split; congruence). exact G.
-      + destruct (is_ascii_alphanumeric d); cbn [negb]; [discriminate|].
+      + destruct (u_alphanumeric u d); cbn [negb]; [discriminate|].
         intros H. assert (n = 1 + 1 /\ k = KWord) as [-> ->] by (split; congruence). exact G.
   Qed.
 
@@ -304,11 +306,12 @@ Section RawShape.
   Lemma longest_float_shape s : forall m n k, longest_float m s = Some (n, k) ->
     n <= m /\ exists neg mant ex,
       k = KNumber (mknumber neg mant ex None 10 (precision_of (firstn n s))) /\
-      parse_f64 (firstn n s) = Some (neg, mant, ex).
+      parse_f64 (firstn n s) = Some (neg, mant, ex) /\ f64_finite mant ex = true.
   Proof.
     induction m as [|m IH]; intros n k H; cbn [longest_float] in H; [discriminate|].
-    cbv zeta in H. destruct (parse_f64 (firstn (S m) s)) as [[[neg mant] ex]|] eqn:P.
-    - assert (n = S m) as -> by congruence. split; [lia|]. exists neg, mant, ex. split; [congruence|exact P].
+    cbv zeta in H. destruct (parse_finite (firstn (S m) s)) as [[[neg mant] ex]|] eqn:P.
+    - assert (n = S m) as -> by congruence. split; [lia|]. exists neg, mant, ex. split; [congruence|].
+      apply parse_finite_some. exact P.
     - destruct (IH n k H) as [L R]. split; [lia|exact R].
   Qed.
 
@@ -317,7 +320,7 @@ Section RawShape.
     unfold lex_number. destruct src as [|c0 r]; [discriminate|].
     destruct (negb (u_numeric u c0)); [discriminate|]. cbv zeta.
     match goal with |- match ?x with _ => _ end = _ -> _ => destruct x as [e|]; [|discriminate] end.
-    intros H. apply longest_float_shape in H. destruct H as [L [neg [mant [ex [-> P]]]]].
+    intros H. apply longest_float_shape in H. destruct H as [L [neg [mant [ex [-> [P Fin]]]]]].
     rewrite firstn_length in L.
     assert (firstn n (firstn (S e) (c0 :: r)) = firstn n (c0 :: r)) as F.
     { rewrite firstn_firstn. f_equal. lia. }
